@@ -7,7 +7,7 @@
    implementation's fluctuations satisfy the differentiated system. *)
 From Coq Require Import ZArith QArith Qminmax Qabs List Bool String.
 From Interval Require Import Float.Specific_ops Interval.Float_full Interval.Interval Real.Xreal Float.Basic.
-From PV Require Import Base.QAux Base.RI Base.Expr Obs.Model Obs.Derived.
+From PV Require Import Base.QAux Base.RI Base.Expr Base.Dyadic Obs.Model Obs.Derived.
 Import ListNotations.
 
 (* ------------------------------------------------------------------ the documented chi-square functions as expressions *)
@@ -97,7 +97,9 @@ Definition term_bounds (c : option (Q * Q)) (x : Q) : option (Q * Q) :=
   if Qeq_bool x 0 then Some (0, 0) else
   match c with
   | None => None
-  | Some (lo, hi) => let a := Qred (lo * x) in let b := Qred (hi * x) in Some (Qmin a b, Qmax a b)
+  | Some (lo, hi) =>
+      if Qeq_bool lo 0 && Qeq_bool hi 0 then Some (0, 0) else
+      let a := Qred (lo * x) in let b := Qred (hi * x) in Some (Qmin a b, Qmax a b)
   end.
 Fixpoint form_bounds (cs : qrow) (xs : list Q) : option (list (Q * Q)) :=
   match cs, xs with
@@ -121,20 +123,103 @@ Definition forms_ok (rt : Q) (sizes : list (option (Q * Q))) : bool :=
   forallb (fun s => match s with Some (r, a) => Qle_bool r (rt * (a + amax)) | None => false end) sizes.
 Definition form_ok (rt : Q) (cs : qrow) (xs : list Q) : bool := forms_ok rt [form_sizes cs xs].
 
-Definition fluct_form_ok (rt : Q) (u_obs d_obs : list obs) (cs : qrow) : bool :=
-  forms_ok rt (flat_map (fun n =>
-    let ws := map (fun o => spec_weight d_obs o n) d_obs in
-    map (fun c => form_sizes cs (map (fun o => fluct0 o n c) u_obs ++ map (fun ow => Qred (snd ow * fluct0 (fst ow) n c)) (combine d_obs ws)))
+(* all fluctuation vectors (visible unknowns' observables, then weighted data observables), one per replica and configuration *)
+Definition fluct_table (u_obs d_obs : list obs) : list (list Q) :=
+  let tab := ulen_table d_obs in
+  flat_map (fun n =>
+    let ws := map (fun o => spec_weight_t d_obs tab o n) d_obs in
+    map (fun c => map (fun o => fluct0 o n c) u_obs ++ map (fun ow => Qred (snd ow * fluct0 (fst ow) n c)) (combine d_obs ws))
         (union_cfgs (u_obs ++ d_obs) n))
-    (sample_names (u_obs ++ d_obs))).
+    (sample_names (u_obs ++ d_obs)).
+Definition table_form_ok (rt : Q) (table : list (list Q)) (cs : qrow) : bool := forms_ok rt (map (form_sizes cs) table).
+Definition fluct_form_ok (rt : Q) (u_obs d_obs : list obs) (cs : qrow) : bool := table_form_ok rt (fluct_table u_obs d_obs) cs.
+(* ---- the same decision in exact dyadic arithmetic (no gcd): coefficient bounds and fluctuations are dyadic numbers (binary floats);
+   the rational C01 weights are enclosed by dyadics 2^-64 apart, which only widens the enclosure of the form *)
+Definition f2d (f : F.type) : option dy :=
+  match F.toF f with
+  | Fnan => None
+  | Fzero => Some dzero
+  | Float s m e => Some ((if s then Z.neg m else Z.pos m), e)
+  end.
+Definition i2d (i : I.type) : option (dy * dy) :=
+  match i with
+  | Float.Ibnd l u => match f2d l, f2d u with Some a, Some b => Some (a, b) | _, _ => None end
+  | Float.Inan => None
+  end.
+Definition drow := list (option (dy * dy)).
+Definition dterm (c : option (dy * dy)) (x : dy * dy) : option (dy * dy) :=
+  if dis0 (fst x) && dis0 (snd x) then Some (dzero, dzero) else
+  match c with
+  | None => None
+  | Some (lo, hi) =>
+      if dis0 lo && dis0 hi then Some (dzero, dzero) else
+      if (fst (fst x) =? fst (snd x))%Z && (snd (fst x) =? snd (snd x))%Z then
+        let p1 := dmul lo (fst x) in let p3 := dmul hi (fst x) in Some (dmin p1 p3, dmax p1 p3)
+      else
+      let p1 := dmul lo (fst x) in let p2 := dmul lo (snd x) in let p3 := dmul hi (fst x) in let p4 := dmul hi (snd x) in
+      Some (dmin (dmin p1 p2) (dmin p3 p4), dmax (dmax p1 p2) (dmax p3 p4))
+  end.
+Fixpoint dform (cs : drow) (xs : list (dy * dy)) (lo hi inf : dy) : option (dy * dy) :=   (* (sup |form|, inf sum |terms|) *)
+  match cs, xs with
+  | c :: cs', x :: xs' =>
+      match dterm c x with
+      | None => None
+      | Some (tl, th) =>
+          if dis0 tl && dis0 th then dform cs' xs' lo hi inf else
+          let a := if dleb tl dzero && dleb dzero th then dzero else dmin (dabs tl) (dabs th) in
+          dform cs' xs' (dadd lo tl) (dadd hi th) (dadd inf a)
+      end
+  | [], [] => Some (dmax (dabs lo) (dabs hi), inf)
+  | _, _ => None
+  end.
+(* Each residual is below rt times (its own sum of absolute terms + the equation's scale), where the scale is
+   (sum_j |c_j|) max_j max_c |x_j(c)|, so a
+   configuration (or covariance input) on which all true terms vanish is measured against the equation's overall size. *)
+Fixpoint col_max (table : list (list (dy * dy))) : list dy :=
+  match table with
+  | [] => []
+  | [xs] => map (fun x => dmax (dabs (fst x)) (dabs (snd x))) xs
+  | xs :: rest => let m := col_max rest in
+                  (fix go (a : list (dy * dy)) (b : list dy) : list dy :=
+                     match a, b with x :: a', y :: b' => dmax (dmax (dabs (fst x)) (dabs (snd x))) y :: go a' b' | _, _ => [] end) xs m
+  end.
+Definition row_scale (cs : drow) (xm : list dy) : dy :=
+  (* (sum_j |c_j|) * max_j max_c |x_j(c)|: rounding noise of matrix-valued derivatives is relative to the largest entry of the whole
+     system, not to the individual observable *)
+  dmul (fold_right (fun c acc => match c with Some (lo, hi) => dadd (dmax (dabs lo) (dabs hi)) acc | None => acc end) dzero cs)
+       (fold_right dmax dzero xm).
+Definition dforms_ok (rt : dy) (scale : dy) (sizes : list (option (dy * dy))) : bool :=
+  forallb (fun s => match s with Some (r, a) => dleb r (dmul rt (dadd a scale)) | None => false end) sizes.
+Definition dexact (q : Q) : dy * dy := d_enclose 120 q.
+Definition dweighted (w : dy * dy) (q : Q) : dy * dy :=
+  let x := dexact q in
+  if (fst (fst w) =? 1)%Z && (snd (fst w) =? 0)%Z && (fst (snd w) =? 1)%Z && (snd (snd w) =? 0)%Z then x else
+  let p1 := dmul (fst w) (fst x) in let p2 := dmul (fst w) (snd x) in let p3 := dmul (snd w) (fst x) in let p4 := dmul (snd w) (snd x) in
+  (dmin (dmin p1 p2) (dmin p3 p4), dmax (dmax p1 p2) (dmax p3 p4)).
+Definition dfluct_table (u_obs d_obs : list obs) : list (list (dy * dy)) :=
+  let tab := ulen_table d_obs in
+  flat_map (fun n =>
+    let ws := map (fun o => d_enclose 64 (spec_weight_t d_obs tab o n)) d_obs in
+    map (fun c => map (fun o => dexact (fluct0 o n c)) u_obs ++ map (fun ow => if Qeq_bool (fluct0 (fst ow) n c) 0 then (dzero, dzero) else dweighted (snd ow) (fluct0 (fst ow) n c)) (combine d_obs ws))
+        (union_cfgs (u_obs ++ d_obs) n))
+    (sample_names (u_obs ++ d_obs)).
+Definition dtable_form_ok (rt : Q) (table : list (list (dy * dy))) (xm : list dy) (cs : drow) : bool :=
+  dforms_ok (fst (dexact rt)) (row_scale cs xm) (map (fun xs => dform cs xs dzero dzero dzero) table).
+
 Definition covgrad_of (o : obs) (n : string) (k : nat) : Q := match find_cov o n with Some c => qnth (c_grad c) k | None => 0 end.
 Definition cov_len (ops : list obs) (n : string) : nat :=
   fold_right (fun o acc => match find_cov o n with Some c => Nat.max (List.length (c_grad c)) acc | None => acc end) O ops.
-Definition cov_form_ok (rt : Q) (u_obs d_obs : list obs) (cs : qrow) : bool :=
-  forms_ok rt (flat_map (fun n =>
-    map (fun k => form_sizes cs (map (fun o => covgrad_of o n k) u_obs ++ map (fun o => covgrad_of o n k) d_obs))
+Definition cov_table (u_obs d_obs : list obs) : list (list Q) :=
+  flat_map (fun n =>
+    map (fun k => map (fun o => covgrad_of o n k) u_obs ++ map (fun o => covgrad_of o n k) d_obs)
         (seq 0 (cov_len (u_obs ++ d_obs) n)))
-    (all_cov_names (u_obs ++ d_obs))).
+    (all_cov_names (u_obs ++ d_obs)).
+Definition cov_form_ok (rt : Q) (u_obs d_obs : list obs) (cs : qrow) : bool := table_form_ok rt (cov_table u_obs d_obs) cs.
+Definition dcov_table (u_obs d_obs : list obs) : list (list (dy * dy)) :=
+  flat_map (fun n =>
+    map (fun k => map (fun o => dexact (covgrad_of o n k)) u_obs ++ map (fun o => dexact (covgrad_of o n k)) d_obs)
+        (seq 0 (cov_len (u_obs ++ d_obs) n)))
+    (all_cov_names (u_obs ++ d_obs)).
 (* the results live exactly on the union of the data's configurations / covariance inputs *)
 Definition support_ok (u_obs d_obs : list obs) : bool :=
   forallb (fun u => names_eqb (rep_names u) (sample_names d_obs)
@@ -152,10 +237,13 @@ Definition implicit_ok (c : icase) : bool :=
   let nu := ic_nu c in let nd := List.length (ic_dvals c) in
   let J := jacobian (ic_eqs c) (nu + nd) (ic_env c) in
   let J' := eliminate (seq (ic_nv c) (nu - ic_nv c)) J in
+  let ft := dfluct_table (ic_uobs c) (ic_dobs c) in
+  let ct := dcov_table (ic_uobs c) (ic_dobs c) in
+  let fm := col_max ft in let cm := col_max ct in
   support_ok (ic_uobs c) (ic_dobs c) && forallb (guardsI (ic_env c)) (ic_eqs c)
   && forallb (fun i => let row := nth i J' [] in
-                       let cs := map i2q (firstn (ic_nv c) row ++ skipn nu row) in
-                       fluct_form_ok (ic_rt c) (ic_uobs c) (ic_dobs c) cs && cov_form_ok (ic_rt c) (ic_uobs c) (ic_dobs c) cs)
+                       let cs := map i2d (firstn (ic_nv c) row ++ skipn nu row) in
+                       dtable_form_ok (ic_rt c) ft fm cs && dtable_form_ok (ic_rt c) ct cm cs)
              (if Nat.eqb (ic_nv c) nu then seq 0 (List.length (ic_eqs c)) else seq 0 (ic_nv c)).
 
 (* stationarity of an objective F at the solution, scale-free: g_i^2 <= tol^2 H_ii (1 + F + H_ii u_i^2) with H_ii > 0 *)
